@@ -196,6 +196,22 @@ def reset_covers(ctx):
             if any(c.qual == 'Variable.update' for c in r) and n.args and \
                     unparse(n.args[0]) == 'self.initial_value':
                 okv = True
+    # the restore is unconditional: a tolerance test ("already close to the
+    # nominal") leaves small perturbations in place
+    for fn, attr in ((vr, 'update'), (pr, 'reset')):
+        for p_ in paths(fn, loop_iters=(1,)):
+            if p_.exit != 'return':
+                continue
+            if not any(e.kind == 'call' and call_attr(e) == attr
+                       for e in p_.events):
+                okv = False
+                res.fail(ctx.finding(
+                    'RESET-COVERS', fn, fn.node,
+                    f'{fn.qual}: a path returns without calling {attr}() '
+                    f'({p_.describe(4)}): the restore must not '
+                    f'depend on the current value',
+                    construct=f'{fn.qual} conditional restore'))
+                break
     if okv:
         res.ok('Variable.reset = update(self.initial_value)')
     else:
